@@ -132,3 +132,9 @@ impl fmt::Display for Reason {
         write!(fmt, "{}", self.description())
     }
 }
+
+#[cfg(feature = "verif")]
+#[allow(missing_docs, dead_code, unused_imports)]
+pub(crate) mod verif_h {
+    include!(concat!(env!("H2_VERIF_DIR"), "/harness/frame/reason.rs"));
+}
